@@ -4,12 +4,15 @@ import json, sys
 pid = sys.argv[1]
 wt = sys.argv[2]
 wave2 = len(sys.argv) > 3 and sys.argv[3] == "wave2"
-out = "/tmp/seedout/%s%s" % (pid, "w2" if wave2 else "")
+wave3 = len(sys.argv) > 3 and sys.argv[3] == "wave3"
+out = "/tmp/seedout/%s%s" % (pid, "w2" if wave2 else "w3" if wave3 else "")
 for l in open('/verif/properties.jsonl'):
     p = json.loads(l)
     if p['id'] == pid:
         break
 extra = (" This is a second round: avoid the most obvious site (the first mechanism listed); choose sites from the second half of the mechanisms list, or in a tool under src/ rather than the library where the property involves both, or in code shared with other features (option handling, default formats, buffer management, table generation). At least one of your two changes must need a multi-step sequence of operations, a particular order/history, an interaction of two options, or two cooperating edits at different sites to manifest." if wave2 else "")
+if wave3:
+    extra = (" This is a third round on a tree that has recently had many repairs (`git log --grep '^fix:' --stat` lists them). Choose sites that earlier rounds are unlikely to have used: code that one of those repairs touched or introduced (a repaired branch, a new helper, a new clamp or bound - re-break it subtly or break its neighbour), or the handling of values held in a less common representation (epoch @N / %s, ISO week dates, ordinal dates, year-month-count-weekday, business-day-of-month, Lilian/Julian/Matlab day numbers) when a second operation or a second operand follows, or a difference between argument mode and stdin/stream mode, or state kept between two inputs, two durations, two formats or two options of one invocation. At least one of your two changes must need a multi-step sequence, a particular order/history, or an interaction of two options or two cooperating edits to manifest. Do NOT use `git stash` (it is shared between worktrees); revert with `git checkout -- .` only. If `make` starts re-running configure, run `./config.status --recheck && ./config.status` once, serially, then `make -j8`.")
 print(f"""You are given a scratch git worktree of the C project hroptatyr/dateutils at {wt} (already configured and built in-tree with autotools: run `make -j8` in it to rebuild, binaries are in {wt}/src, library sources in {wt}/lib, the test suite is `make -k check -j8` in {wt} and currently passes). Work ONLY inside {wt} (and {out} for your output); do not read or touch /verif or /repo.
 
 Here is a semantic property the software is supposed to satisfy:
@@ -27,7 +30,7 @@ Task: produce TWO different, independent, realistic source changes (the kind of 
 
 For each change k in {{1,2}}:
 1. make the change in the worktree, rebuild (`make -j8`), run the full test suite and confirm it passes (report the PASS/FAIL totals);
-2. write a demonstration `{out}/change<k>/demo.sh` (a shell script using the built binaries in {wt}/src, taking the tree directory as $1, or a small C program plus build line) that exits non-zero / prints FAIL with the change and exits 0 / prints PASS without it; run it both ways to confirm (with the change applied, and after `git stash` / `git checkout -- .`);
+2. write a demonstration `{out}/change<k>/demo.sh` (a shell script using the built binaries in {wt}/src, taking the tree directory as $1, or a small C program plus build line) that exits non-zero / prints FAIL with the change and exits 0 / prints PASS without it; run it both ways to confirm (with the change applied, and after `git checkout -- .`);
 3. save the change as `{out}/change<k>/patch.diff` (`git diff` in the worktree) and write `{out}/change<k>/meta.json` with keys: property, summary (what was changed), needs (what is needed for it to manifest), demo (how to run it), tests (the totals you observed);
 4. revert the worktree (`git checkout -- .`) before starting the next change.
 
